@@ -391,6 +391,20 @@ theorem noop_results (cfg : Cfg) (hr : Repaired cfg) (s s' : St) (i : Nat) (hi :
     injection h with h; subst h
     exact ⟨⟨rfl, rfl, rfl, rfl, rfl, rfl, rfl, rfl, rfl⟩, by simp [setPc_tasks], by simp [setPc_tasks]⟩
 
+/-- A ServerPreConnectEvent subscriber that redirects a request changes only the request's own destination; the
+    re-check and the atomic check-and-claim that follow (`noop_results`, pcs `check2` / `set`) validate THAT destination
+    (`(s'.tasks i).dest = d`): a request redirected onto the player's current server is answered AlreadyConnected and
+    never dials. -/
+theorem redirect_is_rechecked (cfg : Cfg) (s s' : St) (i d : Nat) (hi : i < s.ntasks)
+    (hpc : (s.tasks i).pc = .event) (hev : (s.tasks i).ev = .redirect d) (h : step cfg s (.task i) = some s') :
+    sharedEq s s' ∧ (s'.tasks i).pc = .check2 ∧ (s'.tasks i).dest = d ∧ (s'.tasks i).conn = (s.tasks i).conn := by
+  simp only [step] at h
+  unfold stepTask at h
+  rw [if_neg (by omega)] at h
+  simp only [hpc, hev] at h
+  injection h with h; subst h
+  exact ⟨⟨rfl, rfl, rfl, rfl, rfl, rfl, rfl, rfl, rfl⟩, by simp [upd_apply], by simp [upd_apply], by simp [upd_apply]⟩
+
 /-- DEFECT (fixed): in the original code the post-processing of such a no-op request cleared the in-flight slot
     that belongs to ANOTHER request. -/
 theorem noop_results_fails_foreign_reset :
